@@ -32,6 +32,7 @@ var gridNames = map[string]func() []group{
 	"grid-datetime":  gridDatetime,
 	"grid-regex":     gridRegex,
 	"grid-interact":  gridInteract,
+	"grid-big":       gridBig,
 }
 
 func isGrid(name string) bool { _, ok := gridNames[name]; return ok }
@@ -226,6 +227,8 @@ func gridMethod() []group {
 			}
 		}
 		gs = append(gs, group{"$.string().double()", v, nil}, group{"$.string().bigint()", v, nil}, group{"$.string().boolean()", v, nil}, group{"$.double().string()", v, nil})
+		gs = append(gs, group{"$ ? (@.string() starts with \"1\")", v, nil}, group{"$[*] ? (@.string() like_regex \"0$\")", []any{v, v}, nil}, group{"$ ? (@.string() == $.string())", v, nil},
+			group{"strict $ ? (@.string().double() == @.double())", v, nil})
 	}
 	ps := []int{1, 2, 3, 5, 15, 16, 17, 308, 309, 1000, 0, 1001, -1}
 	ss := []int{-1000, -309, -308, -2, -1, 0, 1, 2, 15, 308, 309, 1000, 1001, -1001}
@@ -709,5 +712,98 @@ func gridInteract() []group {
 		add(t, subdoc, nil)
 	}
 	add("$[$[0]]", []any{[]any{float64(2)}, "x", "y"}, nil)
+	// (10) filters nested 2 … 12 deep; each level reads its own @ after the nested filter has run
+	for depth := 2; depth <= 12; depth++ {
+		var doc any = map[string]any{"n": float64(depth)}
+		for lvl := depth - 1; lvl >= 1; lvl-- {
+			doc = map[string]any{"n": float64(lvl), "c": doc}
+		}
+		cond := fmt.Sprintf("@.n == %d", depth)
+		for lvl := depth - 1; lvl >= 1; lvl-- {
+			cond = fmt.Sprintf("exists(@.c ? (%s)) && @.n == %d", cond, lvl)
+		}
+		add("$ ? ("+cond+")", doc, nil)
+		add("$ ? ("+strings.Replace(cond, fmt.Sprintf("@.n == %d", depth), fmt.Sprintf("@.n == %d", depth+1), 1)+")", doc, nil)
+		cond2 := fmt.Sprintf("@.n == %d", depth)
+		for lvl := depth - 1; lvl >= 1; lvl-- {
+			cond2 = fmt.Sprintf("@.n == %d && exists(@.c ? (%s))", lvl, cond2)
+		}
+		add("$ ? ("+cond2+")", doc, nil)
+	}
+	return gs
+}
+
+// gridBig: sizes no random generator reaches — arrays of 64 … 10,050 elements, objects of 130 and
+// 4,100 members, 1,024+ operand pairs, results of exactly k·4096 items, nesting 200 … 7,000 deep —
+// under the steps whose implementations have loops, buffers or counters that might be tuned for
+// "large" inputs.
+func gridBig() []group {
+	seq := func(n int, f func(i int) any) []any {
+		out := make([]any, n)
+		for i := range out {
+			out[i] = f(i)
+		}
+		return out
+	}
+	num := func(i int) any { return float64(i) }
+	var gs []group
+	add := func(t string, d any, v map[string]any) {
+		gs = append(gs, group{t, d, v}, group{"strict " + t, d, v})
+	}
+	for _, n := range []int{33, 64, 100, 130, 257, 1023, 1024, 1025, 4096, 4097, 8192, 10050} {
+		arr := seq(n, num)
+		for _, t := range []string{"$[*]", "$[0 to last]", "$[last]", "$[1023]", "$[5, 1023, 7]", "-$[*]", "+$[*]", "$[*] ? (@ >= 0)", "$[*] ? (@ < 0)", "$.**{1}", "$.**", "$.**{last}", "$.size()",
+			"$[*] == -1", "$[*] ? (@ == $[last])", "($[*] > -1) is unknown", "exists($[*] ? (@ > 5))", "$[last - 1 to last]", "$[*].type() == \"x\""} {
+			add(t, arr, nil)
+		}
+		rows := seq(n, func(i int) any {
+			return map[string]any{"id": float64(i), "tags": []any{float64(i), float64(i + 1)}, "m": map[string]any{"b": float64(i % 3)}}
+		})
+		if n <= 4097 {
+			for _, t := range []string{"$[*].tags[*]", "$[*] ? (exists(@.tags[*]))", "$[*] ? (exists(@.m.*))", "$[*] ? (@.m.*.b == 1).id", "$[*].m.b", "$[*].zz", "$[*] ? (@.id == 1023)", "$[*].tags[1]"} {
+				add(t, rows, nil)
+			}
+		} else if n == 10050 {
+			add("$[*] ? (exists(@.m.*))", rows, nil)
+			add("$[*] ? (@.m.*.b == 1).id", rows, nil)
+		}
+		obj := map[string]any{}
+		for i := 0; i < n && n <= 4100; i++ {
+			obj[fmt.Sprintf("k%05d", i)] = float64(i)
+		}
+		if n <= 4100 {
+			for _, t := range []string{"$.*", "$.keyvalue().key", "$.keyvalue().value", "$.**{1}", "$.* ? (@ > 5)", "$.k00063", "$.size()"} {
+				add(t, obj, nil)
+			}
+		}
+	}
+	// 1,024 and more operand pairs, with integers beyond 2^53 that share a float64
+	big := func(base int64, n int) []any { return seq(n, func(i int) any { return base + int64(2*i) }) }
+	a32, b32 := big(9007199254740993, 32), big(9007199254740992, 32)
+	a31, b31 := big(9007199254740993, 31), big(9007199254740992, 31)
+	a40 := seq(40, func(i int) any { return json.Number(fmt.Sprint(9007199254740993 + int64(2*i))) })
+	for _, d := range []any{map[string]any{"a": a32, "b": b32}, map[string]any{"a": a31, "b": b31}, map[string]any{"a": a40, "b": b32}, map[string]any{"a": seq(1100, num), "b": seq(1100, func(i int) any { return float64(i + 5000) })}} {
+		for _, t := range []string{"$.a[*] == $.b[*]", "$.a[*] != $.b[*]", "$.a[*] < $.b[*]", "$.a[last] > $.b[last]", "$.a[last] == $.b[last]", "$ ? (@.a[*] == @.b[*])", "$.a[*] ? (@ == $.b[*])", "!($.a[*] == $.b[*])"} {
+			add(t, d, nil)
+		}
+	}
+	allowed := seq(1100, func(i int) any { return int64(4611686018427387904) + int64(28672+2*i) })
+	ids := []any{map[string]any{"id": int64(4611686018427387904 + 28673)}, map[string]any{"id": int64(4611686018427387904 + 28672)}, map[string]any{"id": int64(7)}}
+	add("$[*] ? (@.id == $allowed[*])", ids, map[string]any{"allowed": allowed})
+	add("$[*] ? (!(@.id == $allowed[*]))", ids, map[string]any{"allowed": allowed})
+	// deep nesting
+	for _, depth := range []int{60, 200, 900} {
+		var d any = float64(1)
+		for i := 0; i < depth; i++ {
+			if i%2 == 0 {
+				d = []any{d}
+			} else {
+				d = map[string]any{"a": d}
+			}
+		}
+		for _, t := range []string{"$.**{last}", "$.** ? (@ == 1)", "$.**.type()", "$.**{2 to 3}", "$.** == 2", "exists($.**{last})"} {
+			add(t, d, nil)
+		}
+	}
 	return gs
 }
